@@ -301,6 +301,25 @@ pub fn cases(tier: &str, seed: u64, focus: &str) -> Vec<EncCase> {
         }
     }
 
+    // (3b') four or five runs, occasionally with a long Base256-type run (>= 250 bytes) in front
+    if focus != "C10" {
+        let nmulti = if thorough { 15000 } else { 2500 };
+        let run_classes = [Class::Upper, Class::Lower, Class::Digits, Class::EdifactPunct, Class::X12, Class::Shift2, Class::High, Class::LowerSpace];
+        for _ in 0..nmulti {
+            let mut s = Vec::new();
+            if rng.chance(1, 12) {
+                let n = rng.range(248, 256);
+                s.extend(class_string(&mut rng, Class::High, n));
+            }
+            for _ in 0..rng.range(3, 5) {
+                let c = *rng.pick(&run_classes);
+                let n = if rng.chance(1, 3) { rng.range(1, 3) } else { rng.range(1, 16) };
+                s.extend(class_string(&mut rng, c, n));
+            }
+            push_cfgs(&mut out, &mut rng, &g, "multiRun", &s, 1, focus);
+        }
+    }
+
     // (3c) exact fits of the largest listed symbol: digits / letters / bytes that fill a size exactly, one less, one more
     if focus != "C10" {
         for (i, s) in g.sizes.clone().iter().enumerate() {
